@@ -74,6 +74,26 @@ def run(run):
     _r3_tile_image(run, ev)
     _r5_clones(run)
     parity.check(run, "C08.R6", skip_classes=("ToastSampler", "TileMerger"))
+    # "pixels outside the image are undefined": the tile buffer is pre-filled as a whole with the mode's undefined value
+    # before the rectangle is copied in (decided by C15's per-mode convention rule)
+    from . import C15 as c15
+    from . import common as _common
+
+    def conv(sub):
+        members = c15._enum_members(sub.project)
+        if len(members) >= 8:
+            chains = c15._r1_chains(sub, members)
+            c15._r2_conventions(sub, members, chains)
+    _common.delegate(run, "C08.R3", "C15", conv, only_rules={"C15.R2"}, note="premise of 'pixels outside the image are undefined'")
+
+
+def geometry_premises(sub):
+    """C08.R4 (tiling geometry, including 'a sub-image tiling shares its parent's padded square and levels') for use as a premise elsewhere."""
+    ev = sym.make_evaluator(sub.project, ST, [], inline_local=True, no_inline=("next_highest_power_of_2",))
+    ev.self_class = ST + ".StudyTiling"
+    fields_a, fields_b = _object_states(sub, ev)
+    if fields_a is not None:
+        _r4_geometry(sub, ev, fields_a, fields_b)
 
 
 SELF = ("sym", "self")
@@ -81,6 +101,38 @@ SELF = ("sym", "self")
 
 def _fld(name, base=SELF):
     return ("attr", base, name)
+
+
+def _derived(project, ev, fields, need):
+    """Fields that are not stored but computed by a @property of the same name from the stored ones (iterated: a
+    property may use another); uses of such a property inside stored fields are replaced by its value."""
+    out = dict(fields)
+    props = {}
+    for _ in range(3):
+        for k in need:
+            if k in out:
+                continue
+            g = project.funcs.get("%s.StudyTiling.%s" % (ST, k))
+            if g is None or not any((dotted(d) or "").endswith("property") for d in g.node.decorator_list):
+                continue
+            env = {("attr", SELF, a): v for a, v in out.items()}
+            rp = ev.run(g.node, env=env)
+            if len(rp.returns) == 1:
+                out[k] = rp.returns[0][1]
+                props[("attr", SELF, k)] = out[k]
+    if props:
+        def sub(t):
+            if t in props:
+                return props[t]
+            if isinstance(t, tuple):
+                return tuple(sub(x) if isinstance(x, tuple) else x for x in t)
+            return t
+        for _ in range(3):
+            out = {k: _renorm(ev, sub(v)) for k, v in out.items()}
+    return out
+
+
+NEED_FIELDS = ["_width", "_height", "_p2n", "_tile_size", "_tile_levels", "_img_gx0", "_img_gy0"]
 
 
 def _object_states(run, ev):
@@ -93,6 +145,10 @@ def _object_states(run, ev):
         if e.kind == "store" and e.term[1][0][0] == "attr" and e.term[1][0][1] == SELF:
             fa[e.term[1][0][2]] = e.term[1][1]
     need = ["_width", "_height", "_p2n", "_tile_size", "_tile_levels", "_img_gx0", "_img_gy0"]
+
+    def derived(fields):
+        return _derived(project, ev, fields, need)
+    fa = derived(fa)
     if any(k not in fa for k in need):
         run.undecided("C08.R4", init, None, "StudyTiling.__init__ does not set %s" % [k for k in need if k not in fa], kind="init-fields")
         return None, None
@@ -128,6 +184,14 @@ def _object_states(run, ev):
     for e in rc.events:
         if e.kind == "store" and e.term[1][0][0] == "attr" and e.term[1][0][1] == ct:
             fb[e.term[1][0][2]] = _renorm(ev, subst(e.term[1][1]))
+    # property-derived fields see the values the sub-tiling ends up with (after compute_for_subimage's stores)
+    stored_b = {k: v for k, v in fb.items()}
+    for k in need:
+        g = project.funcs.get("%s.StudyTiling.%s" % (ST, k))
+        if g is not None and any((dotted(d) or "").endswith("property") for d in g.node.decorator_list):
+            stored_b.pop(k, None)
+    fb = derived(stored_b)
+    f0 = derived(f0)
     ret = rc.returns[-1][1] if rc.returns else None
     if ret != ct:
         run.violated("C08.R4", cfs, None, "compute_for_subimage returns %s, not the tiling it configured" % show(ret)[:80], kind="subimage-return")
@@ -319,6 +383,7 @@ def _r4_geometry(run, ev, fa, state_b):
         problems.append(("subimage-size", "sub-tiling size is (%s, %s), expected (subim_width, subim_height)" % (show(fb["_width"])[:40], show(fb["_height"])[:40])))
     r0 = ev.run(project.fn(ST + ".StudyTiling.__init__").node, args={"width": par["width"], "height": par["height"]})
     f0 = {e.term[1][0][2]: e.term[1][1] for e in r0.events if e.kind == "store" and e.term[1][0][0] == "attr" and e.term[1][0][1] == SELF}
+    f0 = _derived(project, ev, f0, NEED_FIELDS)
     for fld, p_ in (("_img_gx0", ps[1]), ("_img_gy0", ps[2])):
         want = sym.add(f0[fld], ("sym", p_))
         if fb[fld] != want:
